@@ -492,11 +492,20 @@ def run(model, col, tier):
         if v is None or "IsOptimization" not in info.get("flags", ""):
             continue
         state = sorted(a for a in v.instance_attrs())
+        # counters / logs that nothing but a pure accessor ever reads are not state of the rewriting (statistics)
+        from .c15 import _own_write_only as _owo29
+
+        state = [a for a in state if not _owo29(v, ast.Attribute(value=ast.Name(id="self", ctx=ast.Load()), attr=a.split("__", 2)[-1] if a.startswith("_" + v.name + "__") else a, ctx=ast.Load()))
+                 and not _owo29(v, ast.Attribute(value=ast.Name(id="self", ctx=ast.Load()), attr="__" + a.split("__", 2)[-1] if a.startswith("_" + v.name + "__") else a, ctx=ast.Load()))]
         col.check(not state, "R02.9", f"{info['file']}::{v.name} is stateless", "the optimisation visitor stores nothing on itself",
                   f"the visitor keeps {state} across handler calls: IR values (constants, instructions) remembered from one function are plugged into another, "
                   "whose reference numbering they do not belong to", info["file"], v.node)
     # ---------------- R02.5 ------------------------------------------------------
     cv = model.cls(OCC, "OptimizeConstantCastVisitor").own_method("v_CastInstruction")
+    if cv is not None:
+        from ..sem import expand_helpers as _xh25
+
+        cv = _xh25(model, model.cls(OCC, "OptimizeConstantCastVisitor"), cv)
 
     def cast_table(body, typeexpr_markers, valnames):
         """{('Float',) / ('Integer', unsigned?): normalised expression}"""
@@ -573,13 +582,32 @@ def run(model, col, tier):
     cip_ = cv.args.args[1].arg
     # the value variable: the local that starts as <cast>.Value.Value and is re-bound by the folding arithmetic
     valvars = {n.targets[0].id for n in ast.walk(cv) if isinstance(n, ast.Assign) and isinstance(n.targets[0], ast.Name) and rtext(n.value, local_env(cv)) == f"{cip_}.Value.Value"}
+    # ... or a local every binding of which is a numeric conversion of that value (`constant = float(value.Value)` per
+    # branch, with a module-level sentinel for "not folded")
+    env0_ = local_env(cv)
+    byname_ = {}
+    for n in ast.walk(cv):
+        if isinstance(n, ast.Assign) and len(n.targets) == 1 and isinstance(n.targets[0], ast.Name):
+            byname_.setdefault(n.targets[0].id, []).append(n.value)
+    for nm_, vs_ in byname_.items():
+        if nm_ in valvars or len(vs_) < 2:
+            continue
+
+        def conv_(v_):
+            t_ = rtext(v_, {k: x for k, x in env0_.items() if k != nm_})
+            if isinstance(v_, ast.Name) and v_.id.isupper() and v_.id in model.file(OCC).assigns:
+                return True
+            return t_.startswith(("float(", "int(", "math.floor(", "abs(", "math.trunc(")) and f"{cip_}.Value.Value" in t_
+
+        if all(conv_(v_) for v_ in vs_):
+            valvars.add(nm_)
     cv_env = {k: v for k, v in local_env(cv).items() if k not in valvars}
     col.check(bool(mk) and len(mk[0].args) == 2 and rtext(mk[0].args[0], cv_env) == f"{cip_}.Type" and (unparse(mk[0].args[1]) in valvars or rtext(mk[0].args[1], cv_env).startswith(("math.floor(", "abs(", "float(", "int("))), "R02.5", f"{OCC}::v_CastInstruction new constant", "the folded constant has the cast's target type", None, OCC, cv)
     # the replacement is, on every path, the constant just created in the cast's own function
     for c_ in [c for c in ast.walk(cv) if isinstance(c, ast.Call) and last_attr(c) == "Replace" and len(c.args) == 2]:
         a1 = c_.args[1]
         srcs = find_assign(cv, a1.id) if isinstance(a1, ast.Name) else [a1]
-        good_src = bool(srcs) and all(isinstance(s_, ast.Call) and last_attr(s_) == "CreateConstant" and "Parent.Parent" in unparse(s_.func) for s_ in srcs)
+        good_src = bool(srcs) and all(isinstance(s_, ast.Call) and last_attr(s_) == "CreateConstant" and "Parent.Parent" in rtext(s_.func, cv_env) for s_ in srcs)
         col.check(good_src, "R02.5", f"{OCC}::v_CastInstruction replacement provenance", "the replacement is the result of <cast's function>.CreateConstant(...)",
                   f"the replacement `{unparse(a1)}` can come from {[unparse(s_)[:40] for s_ in srcs]}: a constant that was not created in the cast's own function has a reference of another function", OCC, c_)
     rpc = [c for c in ast.walk(cv) if isinstance(c, ast.Call) and last_attr(c) == "Replace"]
@@ -651,9 +679,10 @@ def run(model, col, tier):
             col.bad("R02.7", f"{LAS}::previous instruction source",
                     "the handler never asks the load's block for the instruction directly before the load (GetPreviousInstruction): whatever it forwards from is not known to be "
                     "the store immediately preceding the load in the same block (a store from another block or an earlier function can be forwarded)", LAS, h)
-            gp = bb.own_method("GetPreviousInstruction")
-            col.check(_previous_ok(bb, gp), "R02.7", f"{IR}::BasicBlock.GetPreviousInstruction",
-                      "the directly preceding instruction of the same block (index - 1), None for the first", "GetPreviousInstruction does not return the directly preceding instruction of the same block", IR, gp)
+            gp = bb.methods.get("GetPreviousInstruction")
+            if gp is not None:
+                col.check(_previous_ok(bb, gp), "R02.7", f"{IR}::BasicBlock.GetPreviousInstruction",
+                          "the directly preceding instruction of the same block (index - 1), None for the first", "GetPreviousInstruction does not return the directly preceding instruction of the same block", IR, gp)
             return
     h_env = {k: v for k, v in local_env(h).items() if k != pv}
     need = {
@@ -743,6 +772,29 @@ def check_value_table(model, col, rule):
     col.check(not bad, rule, f"{IR}::Function value table only grows", "bound in __init__, appended to by RegisterValue, never shrunk or re-bound",
               f"{bad}: the next reference is the table's length, so after an entry is dropped a new value gets a number that is still in use - replacing `by reference` then rewires "
               "operands of the wrong value", IR, fn.node)
+    # the constant pool only grows as well: a constant stays an operand of whatever used it when a pass creates a second one,
+    # and the interpreter binds exactly the pool's entries before it runs the function
+    pool = [n.targets[0].attr for n in ast.walk(fn.own_method("__init__")) if isinstance(n, ast.Assign) and isinstance(n.targets[0], ast.Attribute) and "onstant" in n.targets[0].attr]
+    if len(pool) != 1:
+        raise AnchorMissing(f"{IR}::Function.__init__ creates the constant pool")
+    bad_c = []
+    for name, m in fn.methods.items():
+        if not m.args.args or name == "__init__":
+            continue
+        s = m.args.args[0].arg
+        for x in ast.walk(m):
+            tg = x.targets if isinstance(x, (ast.Assign, ast.Delete)) else [x.target] if isinstance(x, ast.AugAssign) else []
+            for t in tg:
+                if isinstance(t, ast.Attribute) and isinstance(t.value, ast.Name) and t.value.id == s and t.attr == pool[0] and name != "_Traverse":
+                    bad_c.append((name, x))
+                if isinstance(x, ast.Delete) and isinstance(t, ast.Subscript) and isinstance(t.value, ast.Attribute) and t.value.attr == pool[0]:
+                    bad_c.append((name, x))
+            if isinstance(x, ast.Call) and isinstance(x.func, ast.Attribute) and isinstance(x.func.value, ast.Attribute) and x.func.value.attr == pool[0] \
+                    and x.func.attr in ("pop", "popitem", "clear", "remove", "discard"):
+                bad_c.append((name, x))
+    col.check(not bad_c, rule, f"{IR}::Function constant pool only grows", f"`{pool[0]}` is bound in __init__ and only ever gains entries",
+              (f"{bad_c[0][0]}: `{' '.join(unparse(bad_c[0][1]).split())[:70]}`" if bad_c else "") + " takes a constant out of the pool: an instruction in another block (or one created later "
+              "for the same literal) still has it as an operand, and the interpreter no longer binds it before the function runs (KeyError)", IR, bad_c[0][1] if bad_c else fn.node)
     bb = model.cls(IR, "BasicBlock")
     uu = bb.own_method("UpdateUses")
     if uu is None:
